@@ -131,7 +131,7 @@ def selftests(traces, options):
         c = copy.deepcopy(t)
         c["id"] = "selftest/" + tag
         mutate(c["events"])
-        want[c["id"]] = (i + 1, clause)
+        want[c["id"]] = (i + 1, clause, t["id"])
         out.append(c)
 
     def setv(cfg, name, v):
@@ -165,11 +165,16 @@ def selftests(traces, options):
 def check_selftests(val, want):
     mine = [r for r in val["rejected"] if r["id"].startswith("selftest/")]
     val["rejected"] = [r for r in val["rejected"] if not r["id"].startswith("selftest/")]
-    for tid, (line, clause) in sorted(want.items()):
+    real_bad = set(r["id"] for r in val["rejected"] if not r["clause"].startswith("NOTE:"))
+    done = 0
+    for tid, (line, clause, base) in sorted(want.items()):
+        if base in real_bad:
+            continue        # the recorded load itself is rejected (code under test broken): not a usable base
         if not any(r["id"] == tid and r["line"] == line and r["clause"].startswith(clause) for r in mine):
-            raise lib.MachineryError("self-test: corrupted load %s was not rejected at event %d by %s (got %s)"
+            raise lib.MachineryError("self-test: corrupted load %s was not rejected at step %d by %s (got %s)"
                                      % (tid, line, clause, [r for r in mine if r["id"] == tid]))
-    return len(want)
+        done += 1
+    return done
 
 
 def execute(cases):
